@@ -163,6 +163,51 @@ where
     lines
 }
 
+/// the same, with the child maker wrapped in the repository's `GenomeScorer` (the probe makes the
+/// GENOME, a harness scorer scores it): a failure of the genome maker must surface as the step's
+/// failure, and the maker must have been applied exactly once per member
+type Scored = ec_core::individual::ec::EcIndividual<Ind, u64>;
+impl<'p> Operator<&'p Vec<Scored>> for &Maker<'_> {
+    type Output = Ind;
+    type Error = MakerErr;
+    fn apply<R: Rng + ?Sized>(&self, pop: &'p Vec<Scored>, rng: &mut R) -> Result<Ind, MakerErr> {
+        self.make(pop.iter().map(|i| i.genome.id).collect(), std::ptr::from_ref(pop) as u64, rng)
+    }
+}
+#[allow(clippy::too_many_arguments)]
+fn run_scored(sh: &Shared, run: u64, n: usize, serial: bool, threads: usize, fail_plan: &[BTreeSet<u64>],
+              delays: &[u8], key_mod: u64) -> Vec<Value> {
+    use ec_core::{individual::scorer::FnScorer, operator::genome_scorer::GenomeScorer};
+    let mut lines: Vec<Value> = Vec::new();
+    let pool = rayon::ThreadPoolBuilder::new().num_threads(threads).build().expect("pool");
+    let maker = Maker { sh, run, fail_plan: fail_plan.to_vec(), step: std::sync::atomic::AtomicUsize::new(0),
+                        delays: delays.to_vec(), pop_addr: AtomicU64::new(0), key_mod };
+    let pop: Vec<Scored> = (1..=n as u64).map(|i| Scored::new(Ind { id: i, key: i }, i)).collect();
+    let ids = |p: &Vec<Scored>| -> Vec<u64> { p.iter().map(|i| i.genome.id).collect() };
+    lines.push(json!({"ev": "reset", "run": run, "mode": if serial { "serial" } else { "par" }, "kind": "seq",
+                      "collection": "Vec+GenomeScorer", "n": n, "threads": threads, "pop": ids(&pop)}));
+    let scored_ok = std::sync::atomic::AtomicBool::new(true);
+    let child_maker = GenomeScorer::new(&maker, FnScorer(|g: &Ind| g.id));
+    let mut g = Generation::new(child_maker, pop);
+    for k in 0..fail_plan.len() {
+        sh.call.store(0, Ordering::SeqCst);
+        maker.step.store(k, Ordering::SeqCst);
+        lines.push(json!({"ev": "begin", "run": run}));
+        let r = if serial { g.serial_next() } else { pool.install(|| g.par_next()) };
+        lines.append(&mut sh.events.lock().expect("lock"));
+        // every member carries the score of its own genome
+        if g.population().iter().any(|i| i.test_results != i.genome.id) {
+            scored_ok.store(false, Ordering::SeqCst);
+        }
+        let after = if scored_ok.load(Ordering::SeqCst) { ids(g.population()) } else { vec![0] };
+        lines.push(match r {
+            Ok(()) => json!({"ev": "return", "run": run, "ok": true, "err_call": 0, "pop_after": after}),
+            Err(MakerErr(c)) => json!({"ev": "return", "run": run, "ok": false, "err_call": c, "pop_after": after}),
+        });
+    }
+    lines
+}
+
 pub fn trace(args: &[String]) -> i32 {
     let seed = arg_u64(args, "--seed", 0);
     let runs = arg_u64(args, "--runs", 50);
@@ -174,8 +219,8 @@ pub fn trace(args: &[String]) -> i32 {
         let serial = rng.random_range(0..3) == 0;
         let threads = [1usize, 2, 3, 4, 8, 16][rng.random_range(0..6)];
         let steps = rng.random_range(1..=3);
-        let coll = rng.random_range(0..8u32);        // 0-3 Vec, 4 VecDeque, 5 LinkedList, 6 BTreeSet, 7 HashSet
-        let n = if coll >= 6 { n.min(12) } else { n };
+        let coll = rng.random_range(0..10u32);       // 0-3 Vec, 4 VecDeque, 5 LinkedList, 6 BTreeSet, 7 HashSet, 8-9 Vec + GenomeScorer
+        let n = if coll == 6 || coll == 7 { n.min(12) } else { n };
         let key_mod = [1u64, 2, 3, 1 << 40][rng.random_range(0..4)];
         let sh = Shared {
             events: Mutex::new(Vec::new()),
@@ -199,6 +244,7 @@ pub fn trace(args: &[String]) -> i32 {
             5 => run_on::<LinkedList<Ind>>(&sh, run, n, serial, threads, &fail_plan, &delays, key_mod),
             6 => run_on::<BTreeSet<Ind>>(&sh, run, n, serial, threads, &fail_plan, &delays, key_mod),
             7 => run_on::<HashSet<Ind>>(&sh, run, n, serial, threads, &fail_plan, &delays, key_mod),
+            8 | 9 => run_scored(&sh, run, n, serial, threads, &fail_plan, &delays, key_mod),
             _ => run_on::<Vec<Ind>>(&sh, run, n, serial, threads, &fail_plan, &delays, key_mod),
         });
         match res {
